@@ -30,11 +30,13 @@ class PathInfeasible(Exception):
 
 
 class Sym:
-    __slots__ = ("z", "kind")
+    __slots__ = ("z", "kind", "np_scalar", "frac")
 
-    def __init__(self, z, kind):
+    def __init__(self, z, kind, np_scalar=False, frac=None):
         self.z = z
         self.kind = kind  # int | real | bool
+        self.np_scalar = np_scalar   # value stands for a numpy scalar (affects list <op> scalar broadcasting)
+        self.frac = frac             # (numerator, denominator) z3 terms when the value is a quotient by a symbolic term
 
     def __repr__(self):
         return "Sym<%s:%s>" % (self.kind, str(self.z)[:80])
